@@ -29,10 +29,11 @@ import (
 // ---------------------------------------------------------------------------
 
 type semClient struct {
-	id      int
-	amount  int64
-	state   string // idle, requested, holding, error
-	reqSeq  int    // order of the request (controller step at which Acquire was entered)
+	id       int
+	amount   int64
+	state    string // idle, requested, holding, error
+	reqSeq   int    // order of the request (controller step at which Acquire was entered)
+	batch    int    // requests issued in the same batch run concurrently: their queue order is the schedule's choice
 	grantSeq int
 }
 
@@ -46,6 +47,7 @@ func semResourceCase(c *Ctx) []Violation {
 		vrt.Reset()
 		vos.Reset("")
 		vproc.Reset(100)
+		vrt.LockYield = true
 		sem := core.NewResourceSemaphore(max, core.DefaultResourceFormatter("units"))
 		proc := vproc.NewProc("harness", "sem", nil, nil, "", nil)
 		clients := make([]*semClient, nclients)
@@ -88,7 +90,7 @@ func semResourceCase(c *Ctx) []Violation {
 		}
 		step := func() {
 			// run until nothing is runnable
-			for k := 0; k < 200; k++ {
+			for k := 0; k < 3000; k++ {
 				synctest.Wait()
 				parked := vrt.Parked()
 				if len(parked) == 0 {
@@ -119,15 +121,32 @@ func semResourceCase(c *Ctx) []Violation {
 				violate("queue-accounting", fmt.Sprintf("%s: %d clients wait but queue length is %d", ctx, len(waiting), sem.QueueLength()))
 			}
 			// I3: the oldest waiting request does not fit (else it must have been granted)
+			// (requests issued in one batch entered the queue in an order the
+			// schedule chose: any of the oldest batch may be the head, so all of
+			// them must fit before "the head fits" is certain)
 			var head *semClient
 			for _, w := range waiting {
-				if head == nil || w.reqSeq < head.reqSeq {
+				if head == nil || w.batch < head.batch {
 					head = w
 				}
 			}
-			if head != nil && sem.Available() >= head.amount {
-				violate("head-fits-but-waits", fmt.Sprintf("%s: oldest request (%d units) fits the available %d (size %d, reserved %d) but is still waiting: lost wake-up",
-					ctx, head.amount, sem.Available(), sem.CurrentSize(), sem.Reserved()))
+			if head != nil {
+				allFit := true
+				var biggest int64
+				for _, w := range waiting {
+					if w.batch == head.batch {
+						if sem.Available() < w.amount {
+							allFit = false
+						}
+						if w.amount > biggest {
+							biggest = w.amount
+						}
+					}
+				}
+				if allFit {
+					violate("head-fits-but-waits", fmt.Sprintf("%s: oldest request (at most %d units) fits the available %d (size %d, reserved %d) but is still waiting: lost wake-up",
+						ctx, biggest, sem.Available(), sem.CurrentSize(), sem.Reserved()))
+				}
 			}
 		}
 		granted := func() map[int]int {
@@ -140,8 +159,8 @@ func semResourceCase(c *Ctx) []Violation {
 			return m
 		}
 		step()
+		batch := 0
 		for op := 0; op < nops && len(out) == 0; op++ {
-			cl := clients[plan.Draw(nclients)]
 			before := granted()
 			var waitingBefore []*semClient
 			for _, w := range clients {
@@ -149,45 +168,75 @@ func semResourceCase(c *Ctx) []Violation {
 					waitingBefore = append(waitingBefore, w)
 				}
 			}
+			// one to three operations are issued together and run concurrently
+			// (an Acquire racing a Release or an availability update is where a
+			// wake-up can get lost)
+			nb := 1
+			if plan.Draw(3) == 0 {
+				nb = 2 + plan.Draw(2)
+			}
+			batch++
+			used := map[int]bool{}
+			usedUpd := false
 			ctx := ""
-			switch k := plan.Draw(10); {
-			case k < 4 && cl.state == "idle":
-				cl.amount = int64(plan.Draw(int(max) + 3)) // may exceed the limit by up to 2
-				if plan.Draw(6) == 0 {
-					cl.amount = 0
+			for b := 0; b < nb; b++ {
+				cl := clients[plan.Draw(nclients)]
+				k := plan.Draw(10)
+				if used[cl.id] {
+					continue
 				}
-				seq++
-				cl.reqSeq = seq
-				cl.state = "requested"
-				ctx = fmt.Sprintf("acquire(%d) by client %d", cl.amount, cl.id)
-				cmd[cl.id] <- "acquire"
-			case k < 7 && cl.state == "holding":
-				ctx = fmt.Sprintf("release(%d) by client %d", cl.amount, cl.id)
-				cl.state = "releasing"
-				cmd[cl.id] <- "release"
-			case k == 7:
-				n := int64(plan.Draw(int(max)*2 + 1))
-				ctx = fmt.Sprintf("UpdateActual(%d)", n)
-				updates <- func() { sem.UpdateActual(n) }
-			case k == 8:
-				// UpdateSize is only used with sizes up to the hard limit (soft vs.
-				// hard process rlimit); larger values are outside its contract
-				n := int64(plan.Draw(int(max) + 1))
-				ctx = fmt.Sprintf("UpdateSize(%d)", n)
-				updates <- func() { sem.UpdateSize(n) }
-			case k == 9:
-				free, used := int64(plan.Draw(int(max)*2+1)), int64(plan.Draw(int(max)+1))
-				ctx = fmt.Sprintf("UpdateFreeUsed(%d,%d)", free, used)
-				updates <- func() { sem.UpdateFreeUsed(free, used) }
-			default:
+				switch {
+				case k < 4 && cl.state == "idle":
+					cl.amount = int64(plan.Draw(int(max) + 3)) // may exceed the limit by up to 2
+					if plan.Draw(6) == 0 {
+						cl.amount = 0
+					}
+					seq++
+					cl.reqSeq = seq
+					cl.batch = batch
+					cl.state = "requested"
+					used[cl.id] = true
+					ctx += fmt.Sprintf("acquire(%d) by client %d; ", cl.amount, cl.id)
+					cmd[cl.id] <- "acquire"
+				case k < 7 && cl.state == "holding":
+					ctx += fmt.Sprintf("release(%d) by client %d; ", cl.amount, cl.id)
+					cl.state = "releasing"
+					used[cl.id] = true
+					cmd[cl.id] <- "release"
+				case k == 7 && !usedUpd:
+					n := int64(plan.Draw(int(max)*2 + 1))
+					ctx += fmt.Sprintf("UpdateActual(%d); ", n)
+					usedUpd = true
+					updates <- func() { sem.UpdateActual(n) }
+				case k == 8 && !usedUpd:
+					// UpdateSize is only used with sizes up to the hard limit (soft vs.
+					// hard process rlimit); larger values are outside its contract
+					n := int64(plan.Draw(int(max) + 1))
+					ctx += fmt.Sprintf("UpdateSize(%d); ", n)
+					usedUpd = true
+					updates <- func() { sem.UpdateSize(n) }
+				case k == 9 && !usedUpd:
+					free, used := int64(plan.Draw(int(max)*2+1)), int64(plan.Draw(int(max)+1))
+					ctx += fmt.Sprintf("UpdateFreeUsed(%d,%d); ", free, used)
+					usedUpd = true
+					updates <- func() { sem.UpdateFreeUsed(free, used) }
+				}
+			}
+			if ctx == "" {
 				continue
+			}
+			if len(used) > 1 || (len(used) == 1 && usedUpd) {
+				c.Res.Probes["semaphore-concurrent-batches"]++
 			}
 			step()
 			// a request larger than the limit is an error, never a grant
-			if cl.state == "holding" && cl.amount > max {
-				violate("oversized-request-granted", fmt.Sprintf("%s: %d > limit %d was granted", ctx, cl.amount, max))
+			for _, cl := range clients {
+				if cl.state == "holding" && cl.amount > max {
+					violate("oversized-request-granted", fmt.Sprintf("%s: %d > limit %d was granted", ctx, cl.amount, max))
+				}
 			}
 			// I2: among requests that were waiting, grants follow request order
+			// (requests of one batch are concurrent: either order is legal)
 			after := granted()
 			for _, w := range waitingBefore {
 				if _, ok := after[w.id]; ok {
@@ -195,7 +244,7 @@ func semResourceCase(c *Ctx) []Violation {
 						continue
 					}
 					for _, o := range waitingBefore {
-						if o.reqSeq < w.reqSeq && o.state == "requested" {
+						if o.batch < w.batch && o.state == "requested" {
 							violate("granted-out-of-order", fmt.Sprintf("%s: request of client %d (seq %d) granted while older request of client %d (seq %d) still waits",
 								ctx, w.id, w.reqSeq, o.id, o.reqSeq))
 						}
@@ -241,6 +290,7 @@ func semMaxJobsCase(c *Ctx) []Violation {
 		vrt.Reset()
 		vos.Reset("")
 		vproc.Reset(100)
+		vrt.LockYield = true
 		sem := core.NewMaxJobsSemaphore(limit)
 		proc := vproc.NewProc("harness", "sem", nil, nil, "", nil)
 		type mj struct {
@@ -279,7 +329,7 @@ func semMaxJobsCase(c *Ctx) []Violation {
 			}
 		})
 		step := func() {
-			for k := 0; k < 300; k++ {
+			for k := 0; k < 3000; k++ {
 				synctest.Wait()
 				parked := vrt.Parked()
 				if len(parked) == 0 {
